@@ -5,18 +5,17 @@ from tools import dfir, vlib
 class C24(dfir.DfirSpec):
     tag = "C24"
     props_vo = "theories/Props/C24.vo"
-    theorems = ["C24_tick_counter", "C24_double_buffer", "C24_run_available", "C24_state_lifetimes"]
+    theorems = ["C24_tick_counter", "C24_double_buffer", "C24_delivery", "C24_run_available", "C24_state_lifetimes"]
     modes = ("ticks", "avail", "avail")
-    level = "other"
-    explanation = "Not category proof: the end-to-end delivery statement (items pushed in tick t are exactly what the consumer drains in tick t+1) is shipped as three proved lemmas (producer clear, swap, consumer drain) without the frame theorem that no other subgraph touches the handoff's buffers between them; external wake-ups during a tick are not in the model (C27); the lowering of the real meta graph to the model program (schedule list excludes lazy handoffs, swap placement) is Python validated by correspondence only."
+    level = "proof"
     assumptions = [
-        "external wake-ups are absent from the model (the harness only sends between calls; run_available_sync "
-        "clears the flag first); wake-ups racing a running tick are property C27",
+        "external wake-ups are a script parameter of the model's run_available; the harness never produces one (it only "
+        "sends between calls and run_available_sync clears the flag first); wake-ups racing a running tick are C27",
         "the program structure (subgraphs, order, handoffs, delay marks, swap and schedule lists) is lowered by "
         "tools/dfir.py from the real meta_graph() following as_code_with_options; only validated by the cases",
-        "the delivery statement is proved as three lemmas (producer clears buf, end-of-tick swap back'=buf, "
-        "consumer reads exactly back and empties it); the frame condition that no other subgraph touches a "
-        "handoff's buffers holds by construction of handoffs (one producer, one consumer) and is not a theorem",
+        "the end-to-end delivery theorem covers tick programs without loop blocks; its hypotheses (one sending block, "
+        "one receiving block, the others buf_free / back_free for the handoff) are what the lowering of a real "
+        "partitioned graph yields for every handoff (one producer edge, one consumer edge)",
     ]
     rule = ("catalogue program (defer_tick/defer_tick_lazy chains of length 0-4 with taps, stateful operators "
             "beside a defer, a countdown cycle through defer_tick, a 'static join fed through a defer) x random "
